@@ -500,6 +500,11 @@ pub fn run_typed(cfg: &Cfg, rep: &mut Report) {
         if expect_err.is_none() && nsent > np {
             expect_err = Some(-108);
         }
+        // the unit's data on its own, for the stand-alone parameter entry point below
+        let data_region: Vec<u8> = {
+            let start = hdr.len() + query as usize;
+            msg[start..].iter().copied().skip_while(|c| *c == b' ').collect()
+        };
         // a following unit with its own data
         let fdata: Vec<i64> = (0..rng.usize(3)).map(|_| rng.range(-99, 99)).collect();
         msg.extend_from_slice(*rng.pick(&[&b";"[..], b" ;", b"; "]));
@@ -518,6 +523,20 @@ pub fn run_typed(cfg: &Cfg, rep: &mut Report) {
         let r = root.run(&msg, &mut dev, &mut c, &mut out);
         ctx.add("typed.pulls-observed", dev.got.len() as u64);
         let detail = || jobj(&[("message", jbytes(&msg)), ("pulls(optional,type)", jstr(&format!("{:?}", pulls))), ("expected_values", jstr(&format!("{:?}", want))), ("observed_values", jstr(&format!("{:?}", dev.got))), ("follower_saw", jstr(&format!("{:?}", dev.follower))), ("result", jstr(&format!("{:?}", r.as_ref().map_err(|e| e.get_code())))), ("hook", jstr(&format!("{:?}", dev.hook)))]);
+        // the same requests against the same data through `Parameters::with` on a parameter tokenizer of the caller's own
+        // (`Tokenizer::new_params`): a handler obtains the same values, absences and errors
+        {
+            use scpi::parser::tokenizer::Tokenizer;
+            let mut toks = Tokenizer::new_params(&data_region).peekable();
+            let mut d2 = TDev::default();
+            let mut params = scpi::parser::parameters::Parameters::with(&mut toks);
+            let _ = cmd.go(&mut d2, &mut params);
+            ctx.count("typed.stand-alone-parameters-compared");
+            if d2.got.len() != want.len() || !d2.got.iter().zip(want.iter()).all(|(g, w)| tv_match(g, w)) {
+                ctx.violation("C06:typed-api:stand-alone-Parameters-give-different-values", jobj(&[("data", jbytes(&data_region)), ("pulls(optional,type)", jstr(&format!("{:?}", pulls))), ("expected_values", jstr(&format!("{:?}", want))), ("observed_values", jstr(&format!("{:?}", d2.got)))]));
+                return;
+            }
+        }
         if dev.got.len() != want.len() || !dev.got.iter().zip(want.iter()).all(|(g, w)| tv_match(g, w)) {
             let sig = if dev.got.len() == want.len() && dev.got.iter().zip(want.iter()).any(|(g, w)| matches!((g, w), (TV::Absent, TV::Err(_)) | (TV::Err(_), TV::Absent) | (TV::Absent, _) | (_, TV::Absent))) { "presence" } else { "values" };
             ctx.violation(&format!("C06:typed-api:handler-obtained-different-{}", sig), detail());
